@@ -357,7 +357,8 @@ class C03(Check):
             "programs around 9 falsy or falsy-containing composite operands (0 // x, 0 % x, 0 / x, "
             "0 * x, 5 - 0 // x ...); all histories up to depth 3 (thorough 4) of register / "
             "unregister_constant_class and operator uses for two number classes (Fraction and a "
-            "subclass) against a list model; products / sums / quotients of a variable with two float "
+            "subclass) against a list model; three-level programs l +/- ((-k) op r), l +/- (r op (-k)), "
+            "((-k) op r) +/- l over 5 (thorough 9) operand kinds; products / sums / quotients of a variable with two float "
             "constants of extreme magnitude (1e200, 1e-200, 1e308, 5e-324, 0.1, 3.0) in left-associated "
             "chains, compared "
             "bit for bit at 6 points. Each over the box {-2..3, 1/2, -3/2}^2 (quick: 6 values). "
@@ -435,6 +436,21 @@ class C03(Check):
                 yield ("fx", ("bin", "*", ("bin", "/", "Var", a), b))
                 yield ("fx", ("bin", "-", ("bin", "+", "Var", a), b))
 
+        def negated():
+            # a unary minus (or ~, abs) on a composite operand one level below another operator:
+            # where a sign is distributed, hoisted or absorbed
+            ks = ["Var", "Sum", "Sum2", "Product2", "2"] if tier == "quick" else \
+                ["Var", "Sum", "Sum2", "Product", "Product2", "Quotient", "Power", "2", "-1"]
+            for o1 in ("+", "-"):
+                for o2 in ("*", "/", "**", "+", "-"):
+                    for l, k, r_ in itertools.product(ks, repeat=3):
+                        if not (is_expr_kind(l) or is_expr_kind(k) or is_expr_kind(r_)):
+                            continue
+                        n = ("un", "neg", k)
+                        yield ("prog", ("bin", o1, l, ("bin", o2, n, r_)))
+                        yield ("prog", ("bin", o1, l, ("bin", o2, r_, n)))
+                        yield ("prog", ("bin", o1, ("bin", o2, n, r_), l))
+
         def registration():
             for depth_first in REG_MENU:
                 yield ("reg", depth_first)
@@ -484,7 +500,7 @@ class C03(Check):
                 if r != "Rational" and l != "Rational":
                     yield ("smart", "quotient", (l, r))
         return [("single", single), ("double", double), ("falsy-operands", falsy),
-                ("float-extremes", floatx),
+                ("float-extremes", floatx), ("negated-operands", negated),
                 ("constant-class-registration", registration), ("noncommutative", noncomm),
                 ("ordering", order), ("methods", methods), ("smart-constructors", smart)]
 
